@@ -24,6 +24,19 @@ func calleeNames(c *ssa.CallCommon) (short string, full string) {
 	case *ssa.MakeClosure:
 		fn := f.Fn.(*ssa.Function)
 		return fn.Name(), fn.String()
+	case *ssa.UnOp:
+		// a function value loaded from a field or a variable: named after it
+		if f.Op == token.MUL {
+			switch a := f.X.(type) {
+			case *ssa.FieldAddr:
+				st := a.X.Type().Underlying().(*types.Pointer).Elem().Underlying().(*types.Struct)
+				return st.Field(a.Field).Name(), "$dynamic." + st.Field(a.Field).Name()
+			case *ssa.Alloc:
+				return a.Comment, "$dynamic." + a.Comment
+			case *ssa.FreeVar:
+				return a.Name(), "$dynamic." + a.Name()
+			}
+		}
 	}
 	return "$dynamic", "$dynamic"
 }
@@ -39,6 +52,10 @@ func shortIfaceName(t types.Type) string {
 }
 
 func (fc *FuncCtx) bumpCalls(st *State, name string) {
+	if fc.depth > 0 {
+		// calls(F) counts the calls made by the function under contract itself, not by callees executed in-line
+		return
+	}
 	k := "$calls:" + name
 	cur, ok := st.ghost[k]
 	t := "0"
@@ -121,7 +138,7 @@ func (fc *FuncCtx) atCallClauses(fr *Frame, st *State, site ssa.Instruction, sho
 		return
 	}
 	for _, ac := range fr.con.AtCalls {
-		if !matchCallee(ac.Callee, short, full) {
+		if ac.After || !matchCallee(ac.Callee, short, full) {
 			continue
 		}
 		if ac.Ordinal != 0 && site != nil {
@@ -160,7 +177,56 @@ func (fc *FuncCtx) atCallClauses(fr *Frame, st *State, site ssa.Instruction, sho
 	}
 }
 
+// afterCallClauses applies `after call F ghost ...` updates with the call's results bound to ret0, ret1, ...
+func (fc *FuncCtx) afterCallClauses(fr *Frame, st *State, site ssa.Instruction, c *ssa.CallCommon, res Value) {
+	if fr.con == nil {
+		return
+	}
+	short, full := calleeNames(c)
+	for _, ac := range fr.con.AtCalls {
+		if !ac.After || !matchCallee(ac.Callee, short, full) {
+			continue
+		}
+		if ac.Ordinal != 0 && site != nil && fc.callOrdinal(fr, site, ac.Callee) != ac.Ordinal {
+			continue
+		}
+		for _, gsrc := range ac.Ghost {
+			gu, err := parseGhostUpdate(gsrc)
+			if err != nil {
+				fc.unsupported("bad ghost update %q: %v", gsrc, err)
+			}
+			ev := fc.newEnv(fr, st, fr.entry)
+			switch r := res.(type) {
+			case TupleV:
+				for i, e := range r.E {
+					ev.vars[fmt.Sprintf("ret%d", i)] = e
+				}
+			case UnitV:
+			default:
+				ev.vars["ret0"] = res
+			}
+			fc.applyGhostUpdate(ev, st, gu)
+		}
+		fc.afterHit[ac]++
+	}
+}
+
 func (fc *FuncCtx) execCall(fr *Frame, st *State, site ssa.Instruction, c *ssa.CallCommon, pos token.Pos) Value {
+	r := fc.execCall0(fr, st, site, c, pos)
+	fc.afterCallClauses(fr, st, site, c, r)
+	return r
+}
+
+func (fc *FuncCtx) execCall0(fr *Frame, st *State, site ssa.Instruction, c *ssa.CallCommon, pos token.Pos) Value {
+	// pointee types of pointer arguments: the callee may write those variables
+	saved := fc.havocArgTypes
+	fc.havocArgTypes = nil
+	for _, a := range c.Args {
+		if pt, ok := a.Type().Underlying().(*types.Pointer); ok {
+			fc.havocArgTypes = append(fc.havocArgTypes, typeKey(pt.Elem()))
+		}
+	}
+	defer func() { fc.havocArgTypes = saved }()
 	short, full := calleeNames(c)
 	var args []Value
 	for _, a := range c.Args {
@@ -284,6 +350,19 @@ func pureMethod(name, full string) bool {
 func (fc *FuncCtx) applyModSet(st *State, ms *ModSet) {
 	if ms.all {
 		fc.havocAll(st)
+		// channel and once state survives havocAll; the callee's own channel operations do not
+		chm := func(key string) bool {
+			for k := range ms.keys {
+				if (k == "CH" || strings.HasPrefix(k, "CH!")) && strings.HasPrefix(key, "CH!") && (k == "CH" || k == key) {
+					return key != "CH!cap"
+				}
+				if k == "ONCE" && strings.HasPrefix(key, "ONCE!") {
+					return true
+				}
+			}
+			return false
+		}
+		fc.havocKeys(st, chm, "")
 		fc.bumpAlloc(st)
 		return
 	}
@@ -321,7 +400,11 @@ func (fc *FuncCtx) callWithContract(fr *Frame, st *State, con *Contract, fn *ssa
 	calleeUnit := &calleeScope{con: con}
 	for _, as := range con.Assumes {
 		ev := fc.newEnvVars(st, st, vars, calleeUnit)
-		fc.u.fact(st.pc, ev.evalBool(as.E))
+		g, ok := fc.tryEvalBool(ev, as.E)
+		if !ok {
+			continue
+		}
+		fc.u.fact(st.pc, g)
 		fc.u.Assumptions["ghost-state well-formedness assumed for "+con.Key+": "+as.Src] = true
 	}
 	// requires
@@ -386,7 +469,12 @@ func (fc *FuncCtx) callWithContract(fr *Frame, st *State, con *Contract, fn *ssa
 	}
 	for _, en := range con.Ensures {
 		ev := fc.newEnvVars(st, pre, vars, calleeUnit)
-		g := ev.evalBool(en.E)
+		g, ok := fc.tryEvalBool(ev, en.E)
+		if !ok {
+			// a clause that cannot be expressed in the caller's integer/string model is not used (fewer assumptions)
+			fc.u.Assumptions["postcondition `"+clipStr(en.Src, 80)+"` of "+con.Key+" is not expressible in this caller's model and was not used"] = true
+			continue
+		}
 		fc.u.fact(st.pc, g)
 	}
 	// ghost updates declared at exit of the callee
@@ -902,6 +990,38 @@ func (fc *FuncCtx) execGo(fr *Frame, st *State, x *ssa.Go) {
 	case *ssa.MakeClosure:
 		fn = v.Fn.(*ssa.Function)
 	}
+	if fn != nil {
+		if con := fc.eng.contractFor(fn); con != nil && len(con.Requires) > 0 {
+			// the spawned function's precondition must hold where it is started (free variables of a closure are
+			// the spawner's own variables of the same name)
+			vars := map[string]Value{}
+			var rest []Value
+			for _, a := range x.Call.Args {
+				rest = append(rest, fc.val(fr, st, a))
+			}
+			if con.Recv != nil && len(rest) > 0 {
+				vars[con.Recv.Name] = rest[0]
+				rest = rest[1:]
+			}
+			for i, p := range con.Params {
+				if i < len(rest) {
+					vars[p.Name] = rest[i]
+				}
+			}
+			for i, rq := range con.Requires {
+				ev := fc.newEnv(fr, st, fr.entry)
+				for k, v := range vars {
+					ev.vars[k] = v
+				}
+				g := ev.evalBool(rq.E)
+				label := rq.Label
+				if label == "" {
+					label = fmt.Sprintf("pre#%d", i+1)
+				}
+				fc.oblige(fr, st, "go."+fn.Name(), label, g, x.Pos(), "precondition of the goroutine "+fn.Name()+" holds where it is started: "+rq.Src)
+			}
+		}
+	}
 	fc.u.Assumptions["goroutines started with `go` are not executed by the caller's proof; state they may write that is not monitor-protected is treated as volatile afterwards"] = true
 	if fn == nil || !fc.eng.inRepo(fn) || len(fn.Blocks) == 0 {
 		if fn != nil && fc.eng.pureDependency(fn) {
@@ -1097,4 +1217,29 @@ func intLitStrI(k int) string {
 		return fmt.Sprintf("(- %d)", -k)
 	}
 	return fmt.Sprintf("%d", k)
+}
+
+// tryEvalBool evaluates a clause, reporting failure instead of aborting the function (nothing is emitted on failure
+// except harmless declarations).
+func (fc *FuncCtx) tryEvalBool(ev *Env, e Expr) (g string, ok bool) {
+	mark := len(fc.u.Log)
+	defer func() {
+		if r := recover(); r != nil {
+			if _, isU := r.(unsupportedErr); isU {
+				// drop partial definitions/facts of the failed translation, keep declarations
+				var keep []string
+				for _, l := range fc.u.Log[mark:] {
+					if strings.HasPrefix(l, "(declare-") || strings.HasPrefix(l, "(define-fun") {
+						keep = append(keep, l)
+					}
+				}
+				fc.u.Log = append(fc.u.Log[:mark], keep...)
+				fc.u.quant = 0
+				g, ok = "", false
+				return
+			}
+			panic(r)
+		}
+	}()
+	return ev.evalBool(e), true
 }
